@@ -193,17 +193,42 @@ class MoveAlgebra(common.Suite):
         for e in gen_trees(rng, tier, 4):
             yield {"expr": tojson(e)}
 
+    @staticmethod
+    def snap(v):
+        """identity list of a composite's elements (None for an elementary object)"""
+        el = getattr(v, "moves", None)
+        if el is None:
+            el = getattr(v, "operations", None)
+        return None if el is None else [id(x) for x in el]
+
     def evaluate(self, e):
+        """evaluates the expression on the real objects; every operand is USED AGAIN after the operation (the same sum is
+        formed twice) and must be what it was: `a + b` builds a new composite, it does not extend `a`"""
         if e[0] == "L":
             return self.objs[e[1]]
         if e[0] == "A":
-            return self.evaluate(e[1]) + self.evaluate(e[2])
-        return self.evaluate(e[1]) * e[2]
+            a, b = self.evaluate(e[1]), self.evaluate(e[2])
+            sa, sb = self.snap(a), self.snap(b)
+            r = a + b
+            sr = self.snap(r)
+            r2 = a + b
+            if self.snap(a) != sa or self.snap(b) != sb:
+                self.mutated.append("an operand of + changed")
+            if self.snap(r) != sr or self.snap(r2) != sr:
+                self.mutated.append("the same sum formed twice differs")
+            return r
+        a = self.evaluate(e[1])
+        sa = self.snap(a)
+        r = a * e[2]
+        if self.snap(a) != sa:
+            self.mutated.append("the operand of * changed")
+        return r
 
     def real(self, case):
         if not hasattr(self, "objs"):
             self.setup()
         e = fromjson(case["expr"])
+        self.mutated = []
         try:
             v = self.evaluate(e)
         except (ValueError, TypeError) as ex:
@@ -213,7 +238,7 @@ class MoveAlgebra(common.Suite):
         ids = []
         for m in v.moves:
             ids.append([i for i, o in enumerate(self.objs) if o is m][0])
-        return {"result": type(v).__name__, "elems": ids}
+        return {"result": type(v).__name__, "elems": ids, "mutated": sorted(set(self.mutated))}
 
     def model_lines(self, case):
         e = fromjson(case["expr"])
@@ -241,6 +266,8 @@ class MoveAlgebra(common.Suite):
         if obs["result"] == "err":
             return [("algebra:valid-expression-refused", f"{case['expr']} raised {obs.get('exc')}")]
         lv = leaves_of(e)
+        for m in obs.get("mutated", []):
+            out.append(("algebra:operand-mutated", f"{case['expr']}: {m}"))
         if obs["elems"] != lv:
             out.append(("algebra:elements", f"elements {obs['elems']} != leaves {lv}"))
         if e[0] != "L":
@@ -276,13 +303,14 @@ class OperationAlgebra(MoveAlgebra):
         if not hasattr(self, "objs"):
             self.setup()
         e = fromjson(case["expr"])
+        self.mutated = []
         try:
             v = self.evaluate(e)
         except (ValueError, TypeError) as ex:
             return {"result": "err", "exc": type(ex).__name__}
         if any(v is o for o in self.objs):
             return {"result": "base", "elems": [[i for i, o in enumerate(self.objs) if o is v][0]]}
-        return {"result": type(v).__name__,
+        return {"result": type(v).__name__, "mutated": sorted(set(self.mutated)),
                 "elems": [[i for i, o in enumerate(self.objs) if o is m][0] for m in v.operations]}
 
     def model_lines(self, case):
@@ -300,6 +328,8 @@ class OperationAlgebra(MoveAlgebra):
         if obs["result"] == "err":
             return [("opalgebra:valid-expression-refused", f"{case['expr']} raised {obs.get('exc')}")]
         out = []
+        for m in obs.get("mutated", []):
+            out.append(("opalgebra:operand-mutated", f"{case['expr']}: {m}"))
         if obs["elems"] != leaves_of(e):
             out.append(("opalgebra:elements", f"{obs['elems']} != {leaves_of(e)}"))
         if e[0] != "L" and obs["result"] != "CompositeOperation":
